@@ -1,8 +1,41 @@
-(* C18 — placeholder statements about the linter; extended below once Proofs/LintProofs.v exists *)
-From Coq Require Import List.
-From BM Require Import Vlog.Syntax Vlog.Lint.
+(* C18 — every generated HDL file set is self-consistent Verilog.  The emitted files are parsed and the design is
+   linted by Vlog/Lint.v evaluated in Coq; the verdict per run is translation validation.  Proved here: what a
+   clean report of the linter guarantees (its soundness with respect to the structural rules it stands for),
+   so that "the linter reported nothing" has a stated meaning. *)
+From Coq Require Import List NArith PArith Bool Arith.
+From BM Require Import Vlog.Syntax Vlog.Lint Proofs.LintProofs.
 Import ListNotations.
-(* a design without modules has no errors; the linter's verdict on a set is the union of its modules' *)
+
+(* the linter's verdict on a set is the union of its modules' *)
 Theorem lint_app : forall D1 D2 ext, lint (D1 ++ D2) ext = flat_map (lint_module (D1 ++ D2) ext) D1 ++ flat_map (lint_module (D1 ++ D2) ext) D2.
 Proof. intros. unfold lint. apply flat_map_app. Qed.
 Print Assumptions lint_app.
+
+Theorem clean_report_ports_declared : forall D ext, lint D ext = [] ->
+  forall m p, In m D -> In p (m_ports m) ->
+  existsb (fun d => Pos.eqb (fst d) p && is_portk (snd d)) (items_decls 50 (m_items m)) = true.
+Proof. intros D ext H m p. exact (ports_are_declared D ext H m p). Qed.
+Print Assumptions clean_report_ports_declared.
+
+Theorem clean_report_instances_match_their_modules : forall D ext, lint D ext = [] ->
+  forall m mn inst c x, In m D -> In (IInst mn inst c x) (m_items m) ->
+  match find_module D mn with
+  | Some md => match c with
+               | CPos l => length l = length (m_ports md)
+               | CNamed l => forall p, In p l -> mem (fst p) (m_ports md) = true
+               end
+  | None => mem mn ext = true
+  end.
+Proof. intros D ext H m mn inst c x. exact (instances_match_their_modules D ext H m mn inst c x). Qed.
+Print Assumptions clean_report_instances_match_their_modules.
+
+Theorem clean_report_continuous_assignments : forall D ext, lint D ext = [] ->
+  forall m l r x, In m D -> In (IAssign l r) (m_items m) ->
+  (In x (lhs_reads l ++ expr_ids r) -> declared (items_decls 50 (m_items m)) x = true) /\
+  (In x (lhs_roots l) -> is_var (items_decls 50 (m_items m)) x = false).
+Proof. intros D ext H m l r x. exact (continuous_assignments_are_well_formed D ext H m l r x). Qed.
+Print Assumptions clean_report_continuous_assignments.
+
+Theorem clean_report_no_duplicate_declarations : forall D ext, lint D ext = [] -> forall m, In m D -> duplicate_decls m = [].
+Proof. intros D ext H m. exact (no_name_is_declared_twice D ext H m). Qed.
+Print Assumptions clean_report_no_duplicate_declarations.
